@@ -204,6 +204,11 @@ def matrix_metrics(chk, prog):
     flog = prog.cls(DCM + "::DCM").lookup("log")
     from props.c10 import band_rule
     band_rule(chk, flog, "C18", 1e-4, "distances must be exact down to relative angles of 1e-4 rad")
+    from props.c10 import log_arms
+    from sa.symeval import unit_syms as _us
+    from sa.lib import E_ref as _E
+    q_ = _us("gq")
+    log_arms(chk, prog, flog, q_, _E(q_))
 
 
 def euclid(chk, prog):
